@@ -139,6 +139,56 @@ def check_currency(w, doc, names, ob, targets, where):
     return out, None
 
 
+def header_is_whole(text, type_name):
+    """None, or why the text cannot be a complete header: braces and parentheses outside literals and comments must
+    balance, the include guard must be closed, the support class must be there"""
+    depth = {"{": 0, "(": 0}
+    i, n = 0, len(text)
+    while i < n:
+        ch = text[i]
+        if text.startswith("//", i):
+            j = text.find("\n", i)
+            i = n if j < 0 else j
+            continue
+        if text.startswith("/*", i):
+            j = text.find("*/", i + 2)
+            if j < 0:
+                return "unterminated comment"
+            i = j + 2
+            continue
+        if ch in "\"'":
+            j = i + 1
+            while j < n and text[j] != ch:
+                if text[j] == "\\":
+                    j += 1
+                if j < n and text[j] == "\n":
+                    break
+                j += 1
+            if j >= n or text[j] != ch:
+                return "unterminated literal"
+            i = j + 1
+            continue
+        if ch == "{":
+            depth["{"] += 1
+        elif ch == "}":
+            depth["{"] -= 1
+        elif ch == "(":
+            depth["("] += 1
+        elif ch == ")":
+            depth["("] -= 1
+        i += 1
+    if depth["{"] != 0 or depth["("] != 0:
+        return "unbalanced braces/parentheses (%+d, %+d)" % (depth["{"], depth["("])
+    import re as _re
+    if not _re.search(r"\bclass\s+%s\b" % _re.escape(type_name), text):
+        return "no class %s" % type_name
+    if len(_re.findall(r"(?m)^[ \t]*#[ \t]*if", text)) != len(_re.findall(r"(?m)^[ \t]*#[ \t]*endif", text)):
+        return "conditional not closed"
+    if not text.endswith("\n"):
+        return "last line not terminated"
+    return None
+
+
 def run_doc_case(case, env, focus, stats, syntax_compilers=()):
     """-> (violations, fingerprints, sample).  focus in {"bindings", "handlers", "build"}"""
     probes = stats["probes"]
@@ -147,8 +197,12 @@ def run_doc_case(case, env, focus, stats, syntax_compilers=()):
     fps = []
     workdir = env.fresh_dir("qt")
     try:
-        tr = build.translate(env, doc["qml"], doc["type_name"], workdir, prev_qml=case.get("prev_qml"))
+        tr = build.translate(env, doc["qml"], doc["type_name"], workdir, prev_qml=case.get("prev_qml"), wfault=case.get("wfault"))
         stats["runs"] += 1
+        if tr.get("faulted"):
+            stats["runs"] += 2
+            _bump(stats["faults_fired"], "ERR-or-short:write(output)", tr["faulted"]["fired"])
+            _bump(probes, "header_emitted_after_a_write_fault_exit_%s" % ("0" if tr["faulted"]["exit"] == 0 else "nonzero"))
         if tr.get("prev") is not None:
             stats["runs"] += 1
             _bump(probes, "documents_translated_over_the_outputs_of_an_earlier_version")
@@ -162,6 +216,14 @@ def run_doc_case(case, env, focus, stats, syntax_compilers=()):
                 stats.setdefault("notes", []).append(tr["stderr"][:700])
             return viol, fps, {"document": doc["qml"][:1500], "rejected": errs[:3]}
         _bump(probes, "documents_accepted")
+        whole = header_is_whole(tr["header"], doc["type_name"])
+        if whole is not None:
+            # the tool said 0 but what it left is not a complete header (cut short, empty): nothing to compile
+            _bump(probes, "accepted_documents_with_an_incomplete_header")
+            if focus == "build":
+                viol.append(V("compile", "c16:header-incomplete", "exit 0%s, but the support header left on disk is not a complete translation unit: %s\n--- last bytes\n%s"
+                              % (" (under an injected %s on a write of an output)" % tr["faulted"]["kind"] if tr.get("faulted") else "", whole, tr["header"][-300:])))
+            return viol, fps, {"document": doc["qml"][:1500], "incomplete_header": whole}
         b = build.build_driver(doc["type_name"], tr["ui"], tr["header"], workdir, syntax_compilers=syntax_compilers)
         stats["sim_steps"]["translation_units_compiled"] = stats["sim_steps"].get("translation_units_compiled", 0) + 1
         if focus == "build":
@@ -462,6 +524,10 @@ def shrink_doc_case(case, violation):
     if case.get("prev_qml"):
         c = copy.deepcopy(case)
         del c["prev_qml"]
+        yield c
+    if case.get("wfault"):
+        c = copy.deepcopy(case)
+        del c["wfault"]
         yield c
     if hi is not None and len(case["histories"]) > 1:
         c = copy.deepcopy(case)
